@@ -965,7 +965,9 @@ def setitem(t, index, value):
         conds = []
         vidx = []
         for (s, ix) in zip(sel, idx):
-            j = ix[0] if len(ix) == 1 else flatten_ix(ix, None)
+            if len(ix) != 1:
+                raise OutOfSubset('setitem on a factored axis')
+            j = ix[0]
             if s[0] == 'int':
                 conds.append(to_int(j) == to_int(s[1]))
             else:
@@ -1127,7 +1129,11 @@ def inplace(op, t, other):
     if t.requires_grad and t.is_leaf:
         raise PyRaise('RuntimeError', 'a leaf Variable that requires grad is being used in an in-place operation', origin='torch')
     ex().record_write(t, 'inplace_' + op)
-    r = binary(op, t, other)
+    old = STensor(list(t.axes), t.dtype, t._val, lib=t.lib)
+    old.deps, old.requires_grad, old.is_leaf = t.deps, t.requires_grad, t.is_leaf
+    if other is t:
+        other = old
+    r = binary(op, old, other)
     # result shape must equal t's shape
     if len(r.axes) != len(t.axes):
         raise PyRaise('RuntimeError', 'output with shape doesn\'t match the broadcast shape', origin='torch')
